@@ -201,32 +201,44 @@ Proof.
   - rewrite !nscan_cons. destruct Hm as [->|[->|[->| ->]]]; reflexivity.
 Qed.
 
+Lemma nscan_hash_start : forall cur l, nscan NNormal cur (35 :: l) = nscan NHash cur l.
+Proof. intros. rewrite nscan_cons. reflexivity. Qed.
+Lemma nscan_hash_colon : forall cur l, nscan NHash cur (58 :: l) = nscan NHashColon cur l.
+Proof. intros. rewrite nscan_cons. reflexivity. Qed.
+Lemma nscan_comment_other : forall cur c l, (c =? 10) = false -> nscan NComment cur (c :: l) = nscan NComment cur l.
+Proof. intros cur c l H. rewrite nscan_cons. cbn [nsc_step]. unfold nsc_comment. rewrite H. reflexivity. Qed.
+Lemma nscan_hash_other : forall cur c l, (c =? 58) = false -> (c =? 10) = false ->
+  nscan NHash cur (c :: l) = nscan NComment cur l.
+Proof. intros cur c l H H'. rewrite nscan_cons. cbn [nsc_step]. unfold nsc_comment. rewrite H, H'. reflexivity. Qed.
+Lemma nscan_hashcolon_other : forall cur c l, is_alpha c = false -> (c =? 10) = false ->
+  nscan NHashColon cur (c :: l) = nscan NComment cur l.
+Proof. intros cur c l H H'. rewrite nscan_cons. cbn [nsc_step]. unfold nsc_comment. rewrite H, H'. reflexivity. Qed.
+
 Lemma nscan_comment_tail : forall body cur r, Forall (fun c => c <> 10%N) body ->
   (r = [] \/ exists r', r = 10%N :: r') -> nscan NComment cur (body ++ r) = nscan NNormal cur r.
 Proof.
   induction body as [|c body IH]; intros cur r Hb Hr.
   - apply nscan_eol; auto.
-  - inversion Hb as [|? ? Hc Hb']; subst. cbn [app]. rewrite nscan_cons. cbn [nsc_step]. unfold nsc_comment.
-    apply N.eqb_neq in Hc. rewrite Hc. cbn [fst snd app]. apply IH; assumption.
+  - inversion Hb as [|? ? Hc Hb']; subst. cbn [app]. apply N.eqb_neq in Hc.
+    rewrite nscan_comment_other by exact Hc. apply IH; assumption.
 Qed.
 
+(* holds as stated, including the corners body = [] ("#") and body = [58] ("#:") before a newline or
+   the end of the input: NHash / NHashColon treat a newline like NComment does and emit [cur] at the end *)
 Lemma nscan_comment : forall cur body r, comment_body body -> (r = [] \/ exists r', r = 10%N :: r') ->
   nscan NNormal cur (35%N :: body ++ r) = nscan NNormal cur r.
 Proof.
-  intros cur body r [Hb Hc] Hr. rewrite nscan_cons. cbn [nsc_step nsc_normal].
-  change (35 =? 10) with false. change (is_space 35) with false. change (35 =? 35) with true.
-  cbn [fst snd app].
+  intros cur body r [Hb Hc] Hr. rewrite nscan_hash_start.
   destruct body as [|c body].
   - cbn [app]. apply nscan_eol; auto.
   - inversion Hb as [|? ? Hc10 Hb']; subst. apply N.eqb_neq in Hc10.
-    cbn [app]. rewrite nscan_cons. cbn [nsc_step]. destruct (c =? 58) eqn:E58.
-    + apply N.eqb_eq in E58. subst c. cbn [fst snd app].
+    cbn [app]. destruct (c =? 58) eqn:E58.
+    + apply N.eqb_eq in E58. subst c. rewrite nscan_hash_colon.
       destruct body as [|d body].
       * cbn [app]. apply nscan_eol; auto.
       * inversion Hb' as [|? ? Hd10 Hb'']; subst. apply N.eqb_neq in Hd10.
-        cbn [app]. rewrite nscan_cons. cbn [nsc_step]. rewrite Hc. unfold nsc_comment. rewrite Hd10.
-        cbn [fst snd app]. apply nscan_comment_tail; assumption.
-    + unfold nsc_comment. rewrite Hc10. cbn [fst snd app]. apply nscan_comment_tail; assumption.
+        cbn [app]. rewrite nscan_hashcolon_other by assumption. apply nscan_comment_tail; assumption.
+    + rewrite nscan_hash_other by assumption. apply nscan_comment_tail; assumption.
 Qed.
 
 Lemma nscan_blank_line : forall r, nscan NNormal [] (10%N :: r) = nscan NNormal [] r.
